@@ -391,7 +391,25 @@ def grid_replay(chk, tier, prop):
                         {"kind": "grid", "case": case, "sigma": sigma, "detail": msgs[prop], "prop": prop})
 
 
+def _rc_worker(args):
+    s, n, prop, base = args
+    cs = _random_curve_cases(random.Random(s), n, prop)
+    for c in cs:
+        c["id"] = "%s-%d" % (c["id"], base)
+    return cs
+
+
 def random_curve_cases(rng, n, prop):
+    """in parallel: the nested quadratures and the PEATCLSM profile are slow"""
+    jobs = [(rng.randrange(10**9), 4, prop, i) for i in range(max(1, n // 4))]
+    out = []
+    with mp.Pool(12) as pool:
+        for cs in pool.imap_unordered(_rc_worker, jobs):
+            out += cs
+    return out
+
+
+def _random_curve_cases(rng, n, prop):
     """random real parameter sets (spline and PEATCLSM): monotone / refinement / reversal relations"""
     import spowtd.specific_yield as sy_mod
     import spowtd.transmissivity as tm
